@@ -26,6 +26,9 @@ func main() {
 	for _, n := range names {
 		f := p.Funcs[n]
 		var ps []string
+		if f.Decl.Recv != nil && len(f.Decl.Recv.List) == 1 && len(f.Decl.Recv.List[0].Names) == 1 {
+			ps = append(ps, "recv:"+f.Decl.Recv.List[0].Names[0].Name)
+		}
 		for _, fl := range f.Decl.Type.Params.List {
 			if len(fl.Names) == 0 {
 				ps = append(ps, "_")
@@ -34,10 +37,32 @@ func main() {
 				ps = append(ps, id.Name)
 			}
 		}
+		if f.Decl.Type.Results != nil {
+			for _, fl := range f.Decl.Type.Results.List {
+				for _, id := range fl.Names {
+					ps = append(ps, "res:"+id.Name)
+				}
+			}
+		}
 		if len(ps) == 0 {
 			continue
 		}
 		fmt.Printf("\t%q: {%s},\n", n, `"`+strings.Join(ps, `", "`)+`"`)
+	}
+	fmt.Println("}")
+	// locals in declaration order: (type, name)
+	fmt.Println("\n// pinnedLocals: for every function of the reviewed tree, its local variables (including\n// those of function literals) in declaration order, as type and name. When a function's\n// locals still have exactly this sequence of types, each is spelled as it was on the\n// reviewed tree (a pure rename changes nothing a rule sees); otherwise the current\n// spelling is used.\nvar pinnedLocals = map[string][][2]string{")
+	for _, n := range names {
+		f := p.Funcs[n]
+		ls := core.LocalsOf(p, f)
+		if len(ls) == 0 {
+			continue
+		}
+		var parts []string
+		for _, o := range ls {
+			parts = append(parts, fmt.Sprintf("{%q, %q}", core.TypeStr(p, o.Type()), o.Name()))
+		}
+		fmt.Printf("\t%q: {%s},\n", n, strings.Join(parts, ", "))
 	}
 	fmt.Println("}")
 }
